@@ -38,7 +38,7 @@ def precheck(case):
 
 
 def budget(tier):
-    return 4500 if tier == "quick" else 20000
+    return 6000 if tier == "quick" else 24000
 
 
 def strategy(tier):
